@@ -102,7 +102,7 @@ CHECKS["C05"] = {
                        "ZZ_C05_Establish:C05.est.done", "ZZ_C05_Reports:C05.reports.done", "ZZ_C05_Takeover:C05.takeover.done",
                        "ZZ_C05_DeleteReuseReassoc:C05.reuse2.done"]},
     "bounds": {
-        "quick": "frame check around one handler step: bystander session B (rules of all five kinds, one buffered packet, UR-SEQN 1) and acting session A on the same or the other node whose five rule ids and CP SEID are symbolic and may equal B's; steps: Modification with one Create/Update/Remove/Query IE of any kind and symbolic id, Deletion followed by SEID reuse (the new session then buffers and pops a packet of its own under A's PDR id), Association Setup of either node, SEID-0 report response, Establishment, kernel buffer/usage notification, takeover followed by re-association of any of three node ids",
+        "quick": "frame check around one handler step: bystander session B (rules of all five kinds, one buffered packet, UR-SEQN 1) and acting session A on the same or the other node whose five rule ids and CP SEID are symbolic and may equal B's; steps: Modification with one Create/Update/Remove/Query IE of any kind and symbolic id, Deletion followed by SEID reuse (the new session then buffers and pops a packet of its own under A's PDR id), Association Setup of either node, SEID-0 report response, Establishment, kernel buffer/usage notification, takeover followed by re-association of any of three node ids; the two nodes are on different hosts or on one host with different source ports",
         "thorough": "same (the single-step bound is already complete over ids and SEIDs)",
     },
     "outside": "more than two sessions / two nodes; multi-step histories other than takeover+re-association and delete+reuse; B and A sharing both CP SEID and peer (then 'the session the report was sent for' is not determined by the message)",
@@ -145,10 +145,10 @@ CHECKS["C06"] = {
         "quick": [{"pkg": "internal/pfcp", "entries": ["ZZ_C06_*"], "witnesses": 3, "max_paths": 400000, "budget_s": 900}],
         "thorough": [{"pkg": "internal/pfcp", "entries": ["ZZ_C06_*"], "witnesses": 6, "max_paths": 4000000, "budget_s": 3000}],
     },
-    "covers": {"all": ["ZZ_C06_Loop:C06.done", "ZZ_C06_Loop:C06.dup", "ZZ_C06_Loop:C06.first", "ZZ_C06_Loop:C06.expiry", "ZZ_C06_Loop:C06.same-key",
+    "covers": {"all": ["ZZ_C06_UnansweredThenAnswerable:C06.unanswered.done", "ZZ_C06_Loop:C06.done", "ZZ_C06_Loop:C06.dup", "ZZ_C06_Loop:C06.first", "ZZ_C06_Loop:C06.expiry", "ZZ_C06_Loop:C06.same-key",
                        "ZZ_C06_Retention:C06.retention.done"]},
     "bounds": {
-        "quick": "the real event loop (PfcpServer.main + receiver as coroutines) fed with 3 events after a 3-request prefix; two request templates with kind in {Heartbeat, Association Setup, Establishment, Deletion, Establishment without Node ID}, source one of two peers, 24-bit symbolic sequence numbers (equal or different); each event is a copy of template 0/1 or the retention-timer expiry of its key, in every order; retention value checked for MaxRetrans 0..255 x 3 timeouts",
+        "quick": "the real event loop (PfcpServer.main + receiver as coroutines) fed with 3 events after a 3-request prefix; two request templates with kind in {Heartbeat, Association Setup, Establishment, Deletion, Establishment without Node ID}, source one of two peers, 24-bit symbolic sequence numbers (equal or different); each event is a copy of template 0/1 or the retention-timer expiry of its key, in every order; retention value checked for MaxRetrans 0..255 x 3 timeouts; plus one fixed scenario with symbolic sequence numbers and sender: an Establishment naming a node that is not associated yet (unanswered, but seen), the node's Association Setup, 1..2 duplicates of the Establishment (must be ignored), the retention timer really firing (zzFireTimer), and the same octets once more (now executed)",
         "thorough": "same with 4 events",
     },
     "outside": "more than 4 events / 2 distinct keys; real time (expiry is injected through NotifyTransTimeout, the entry point the timer callback uses); pre-emptive interleavings (the loop is single threaded; events are serialised by its select)",
@@ -161,10 +161,10 @@ CHECKS["C09"] = {
         "quick": [{"pkg": "internal/pfcp", "entries": ["ZZ_C09_*"], "witnesses": 3, "max_paths": 400000, "budget_s": 900}],
         "thorough": [{"pkg": "internal/pfcp", "entries": ["ZZ_C09_*"], "witnesses": 6, "max_paths": 4000000, "budget_s": 3000}],
     },
-    "covers": {"all": ["ZZ_C09_Loop:C09.done", "ZZ_C09_Loop:C09.retry", "ZZ_C09_Loop:C09.abandon", "ZZ_C09_Loop:C09.response.matched",
+    "covers": {"all": ["ZZ_C09_Crossed:C09.crossed.timeout-first", "ZZ_C09_Crossed:C09.crossed.response-first", "ZZ_C09_Loop:C09.done", "ZZ_C09_Loop:C09.retry", "ZZ_C09_Loop:C09.abandon", "ZZ_C09_Loop:C09.response.matched",
                        "ZZ_C09_Loop:C09.response.unmatched", "ZZ_C09_Loop:C09.expiry.dead"]},
     "bounds": {
-        "quick": "the real event loop; transmit counter symbolic over the whole 32-bit range (so that a run can sit on either side of, or cross, the 2^24 and the 2^32 boundary), retry limit 0..3, 1..2 Session Report Requests for two sessions of two peers, then 3 events each a retransmission-timer expiry of either request or a Session Report Response from either peer with a symbolic 24-bit sequence number, in every order",
+        "quick": "the real event loop; transmit counter symbolic over the whole 32-bit range (so that a run can sit on either side of, or cross, the 2^24 and the 2^32 boundary), retry limit 0..3, 1..2 Session Report Requests for two sessions of two peers, then 3 events each a retransmission-timer expiry of either request or a Session Report Response from either peer with a symbolic 24-bit sequence number, in every order; plus the crossing of a response with the expiry of the same request's timer: the timer really fires (zzFireTimer), the response arrives too, and the two case bodies of the loop's select run in either order (the harness plays the select so that both orders replay natively), after 0..1 earlier retransmissions, retry limit 0..3",
         "thorough": "same with 4 events",
     },
     "outside": "more than 2 outstanding requests; real timers (an expiry is injected only for a transaction whose timer the code armed)",
@@ -278,9 +278,9 @@ CHECKS["C10"] = {
         "thorough": [{"pkg": "internal/pfcp", "entries": ["ZZ_C10_*"], "witnesses": 6, "max_paths": 4000000, "budget_s": 3000},
                      {"pkg": "internal/forwarder", "entries": ["ZZ_C10_*"], "witnesses": 6, "max_paths": 4000000, "budget_s": 3000}],
     },
-    "covers": {"all": ["ZZ_C10_Notify:C10.notify.done", "ZZ_C10_Notify:C10.notify.unknown-session", "ZZ_C10_Notify:C10.notify.unknown-urr-dropped", "ZZ_C10_ModRsp:C10.rsp.done",
+    "covers": {"all": ["ZZ_C10_AfterTakeover:C10.takeover.done", "ZZ_C10_Notify:C10.notify.done", "ZZ_C10_Notify:C10.notify.unknown-session", "ZZ_C10_Notify:C10.notify.unknown-urr-dropped", "ZZ_C10_ModRsp:C10.rsp.done",
                        "ZZ_C10_Multicast:C10.mcast.done", "ZZ_C10_Results:C10.result.done", "ZZ_C10_Multi:C10.multi.done", "ZZ_C10_Multi:C10.multi.split"]},
-    "bounds": {"quick": "data-plane side: REPORT multicast with 1..2 reports over two distinct symbolic SEIDs, symbolic URR ids and six 64-bit counters each, every one of the 18 single-cause trigger words, two concrete instant pairs; query/update/remove results with a symbolic trigger word; multi-URR (periodic) query of 1, 3, limit, limit+1 and 2*limit+2 (SEID, URR) pairs over three sessions (limit = gtp5gnl.MaxNetlinkUsageReportNum, so sessions straddle netlink request boundaries), every pair answered once with counters that encode the pair and one solver-chosen pair with symbolic counters. PFCP side: a session of either peer with two URRs whose DURAT/VOLUM/EVENT/MNOP settings are symbolic Booleans, batches of 1..2 reports naming arbitrary (known or unknown) URR ids with a symbolic 22-bit trigger word and symbolic counters, delivered for an arbitrary SEID; query / removal / deletion results in the Modification / Deletion response",
+    "bounds": {"quick": "data-plane side: REPORT multicast with 1..2 reports over two distinct symbolic SEIDs, symbolic URR ids and six 64-bit counters each, every one of the 18 single-cause trigger words, two concrete instant pairs; query/update/remove results with a symbolic trigger word; multi-URR (periodic) query of 1, 3, limit, limit+1 and 2*limit+2 (SEID, URR) pairs over three sessions (limit = gtp5gnl.MaxNetlinkUsageReportNum, so sessions straddle netlink request boundaries), every pair answered once with counters that encode the pair and one solver-chosen pair with symbolic counters. PFCP side: a session of either peer with two URRs whose DURAT/VOLUM/EVENT/MNOP settings are symbolic Booleans, batches of 1..2 reports naming arbitrary (known or unknown) URR ids with a symbolic 22-bit trigger word and symbolic counters, delivered for an arbitrary SEID; query / removal / deletion results in the Modification / Deletion response; takeover: 0..2 reports, a Modification from node B naming node B, one more report - which must go to B",
                "thorough": "batches of up to 3 reports"},
     "outside": "symbolic instants (the NTP conversion divides by 10^9; two concrete instants incl. the last second of NTP era 0); more than 3 reports per batch",
     "assumptions": PFCP_ASSUME + FWD_ASSUME,
